@@ -129,7 +129,10 @@ def _phi_cond(c):
     if k == "truth":
         return ["truth", _phi_term(c[1])]
     if k in ("fpred", "cpred"):
-        return [k, c[1], [_phi_term(a) for a in c[2]]]
+        args = [_phi_term(a) for a in c[2]]
+        if c[1] == "p_a_ge_dflt" and len(args) == 1:
+            args.append(["const", enc(phi(1))])          # the default n=1 is a constant of the query: relabelled like the others
+        return [k, c[1], args]
     if k in ("hastype", "const"):
         return c
     if k in ("and", "or"):
